@@ -1095,10 +1095,31 @@ func runC01Server(c *Ctx) {
 			}
 			if fa, ok := st.Addr.(*ssa.FieldAddr); ok {
 				if _, n, _, _ := fieldOf(fa); n == "Data" {
-					if s, ok := st.Val.(*ssa.Slice); ok && s.Low == nil && s.High != nil {
-						h := affineOf(s.High)
-						if _, ok := h.coef["fld:param:p.Length"]; ok && len(h.coef) == 1 {
-							good = true
+					// b[:Length] with Length the field, or the very value that is stored into the field (the payload may
+					// be cut before it is assigned, and reach the store through a variable)
+					lenVals := map[ssa.Value]bool{}
+					eachInstr(u, func(x ssa.Instruction) {
+						if ls, ok := x.(*ssa.Store); ok {
+							if _, ln, _, ok := fieldOf(ls.Addr); ok && ln == "Length" {
+								for _, l := range leavesOfIface(ls.Val) {
+									lenVals[stripConv(l)] = true
+								}
+								lenVals[stripConv(ls.Val)] = true
+							}
+						}
+					})
+					var cands []ssa.Value
+					cands = append(cands, st.Val)
+					cands = append(cands, leavesOfIface(st.Val)...)
+					for _, cv := range cands {
+						if s, ok := cv.(*ssa.Slice); ok && s.Low == nil && s.High != nil {
+							h := affineOf(s.High)
+							if _, ok := h.coef["fld:param:p.Length"]; ok && len(h.coef) == 1 {
+								good = true
+							}
+							if lenVals[stripConv(s.High)] {
+								good = true
+							}
 						}
 					}
 				}
